@@ -5,6 +5,7 @@ fn main() {
     let args = parse_args();
     // Silence panic messages from subjects that are run under catch_unwind; engines install their own hooks.
     let code = match args.id.as_str() {
+        "C12" => hdmc::schedmc::c12::run(&args),
         "C13" => hdmc::props::c13::run(&args),
         "C17" => hdmc::schedmc::c17::run(&args),
         "C16" => hdmc::props::c16::run(&args),
